@@ -699,6 +699,81 @@ Section Histories.
     | [] => Some st
     | i :: r => match mstep st i with Some st' => mrun st' r | None => None end
     end.
+  (* ---------------------------------------------------------------- concurrent named pushes into one file.Store *)
+  (* Store.push for a name: lock the name's status; duplicate?; resolveWritePath;
+     os.Create(target) (truncates); CopyBuffer into it (thread-local; what is on disk
+     meanwhile is not reachable through the store: the name does not exist yet and
+     digestToPath does not point there); then either digestToPath.Store + status.exists
+     (one step here) or os.Remove(target); unlock.  A thread whose name is locked by
+     another thread cannot start. *)
+  Inductive fpc :=
+  | FStart
+  | FWrite (res : option rerr) (out path : str)     (* holds the lock of its name *)
+  | FDone (r : option rerr).
+
+  Record fthr := mkFthr { ft_name : str; ft_d : desc; ft_evs : list ev; ft_comb : bool; ft_fuel : nat; ft_pc : fpc }.
+  Record fcstate := mkFC { fc_st : fstore; fc_thr : list fthr }.
+
+  Definition with_fpc (t : fthr) (p : fpc) : fthr :=
+    mkFthr (ft_name t) (ft_d t) (ft_evs t) (ft_comb t) (ft_fuel t) p.
+
+  Definition writing (t : fthr) : bool := match ft_pc t with FWrite _ _ _ => true | _ => false end.
+  Definition locked (thr : list fthr) (n : str) : bool :=
+    existsb (fun t => writing t && str_eqb (ft_name t) n) thr.
+
+  Definition fstep (st : fcstate) (i : nat) : option fcstate :=
+    match nth_error (fc_thr st) i with
+    | None => None
+    | Some t =>
+        let s := fc_st st in
+        let upd p := set_nth (fc_thr st) i (with_fpc t p) in
+        match ft_pc t with
+        | FDone _ => None
+        | FStart =>
+            match ft_name t with
+            | [] => None                                  (* unnamed pushes: the memory system *)
+            | _ =>
+                if locked (fc_thr st) (ft_name t) then None
+                else if name_in (ft_name t) (f_names s) then Some (mkFC s (upd (FDone (Some EDupName))))
+                else match resolve_name (ft_name t) with
+                     | None => Some (mkFC s (upd (FDone (Some ETraversal))))
+                     | Some path =>
+                         let '((e, out), _) := copy_buffer H (ft_comb t) true (ft_fuel t) (mkBase (ft_evs t) None)
+                                                           file_bufsz (d_dg (ft_d t)) (d_sz (ft_d t)) in
+                         Some (mkFC (mkFs (assoc_set (f_files s) path []) (f_names s) (f_d2p s) (f_fb s))
+                                    (upd (FWrite e out path)))
+                     end
+            end
+        | FWrite (Some er) _ path =>
+            Some (mkFC (mkFs (assoc_del (f_files s) path) (f_names s) (f_d2p s) (f_fb s)) (upd (FDone (Some er))))
+        | FWrite None out path =>
+            Some (mkFC (mkFs (assoc_set (f_files s) path out) (ft_name t :: f_names s)
+                             (assoc_set (f_d2p s) (d_dg (ft_d t)) path) (f_fb s))
+                       (upd (FDone None)))
+        end
+    end.
+
+  Fixpoint frun (st : fcstate) (sched : list nat) : option fcstate :=
+    match sched with
+    | [] => Some st
+    | i :: r => match fstep st i with Some st' => frun st' r | None => None end
+    end.
+
+  Fixpoint explore_f (fuel : nat) (st : fcstate) : list fcstate :=
+    match fuel with
+    | O => []
+    | S f =>
+        let nexts := flat_map (fun i => match fstep st i with Some st' => [st'] | None => [] end)
+                              (seq 0 (length (fc_thr st))) in
+        match nexts with
+        | [] => [st]
+        | _ => flat_map (explore_f f) nexts
+        end
+    end.
+
+  Definition fthread_results (st : fcstate) : list (option (option rerr)) :=
+    map (fun t => match ft_pc t with FDone r => Some r | _ => None end) (fc_thr st).
+
   Fixpoint explore_m (fuel : nat) (st : mstate) : list mstate :=
     match fuel with
     | O => []
